@@ -90,7 +90,7 @@ def hook():
         rec = {'dt': dt, 'held': {a: d['quantity'] for a, d in
                                   self.broker.get_portfolio_as_dict(self.broker_portfolio_id).items()},
                'orders': None, 'row': None, 'weights': None, 'target': None, 'alpha': None,
-               'universe': list(self.universe.get_assets(dt))}
+               'universe': list(self.universe.get_assets(dt)), 'stats_given': stats is not None}
         tr.pcm.append(rec)
         n0 = len(stats['target_allocations']) if stats is not None else 0
         n_s = len(tr.sizer)
@@ -514,6 +514,9 @@ def check_c14(cfg, world, tr, acc):
     for r in tr.pcm:
         # the row recorded at a rebalance carries the weights of that rebalance: the alpha model's value for every asset
         # it named, 0.0 for every other asset of the universe or still held
+        if r['row'] is None and r['orders'] is not None:
+            V('C14', 'allocation-row-missing', 'portfolio construction ran at %s (weights %s, held %s) and recorded no target '
+              'allocation' % (r['dt'], r.get('alpha'), r['held']))
         if r['row'] is None or r.get('alpha') is None:
             continue
         full = set(r['held']) | set(r['universe']) | set(r['alpha'])
@@ -610,6 +613,8 @@ def check_c09_record(r, acc):
     for (cd, dr), (a, q) in zip(r.get('order_meta', []), got):
         if cd != r['dt'] or dr != (1 if q > 0 else -1):
             V('C09', 'order-fields', 'order %s x %s created %s direction %s at rebalance %s' % (q, a, cd, dr, r['dt']))
+    if row is None and r.get('stats_given'):
+        V('C09', 'allocation-row-missing', 'the rebalance at %s (alpha %s, held %s) recorded no target allocation' % (r['dt'], alpha_w, held))
     if row is not None:
         keys = set(row) - {'Date'}
         if keys != full:
